@@ -57,7 +57,15 @@ def corr(ctx):
     ops = []
     targets = [1e-2, 1.0, 3.5, 1e3]
     scales = [1e-2, 1.0, 1e2, 1e4]
-    shapes = [(12,), (1, 12), (3, 12), (2, 3, 4), (2, 2, 3, 2), (1, 3, 4), (1, 2, 2, 3)]
+    shapes = [(12,), (1, 12), (3, 12), (2, 3, 4), (2, 2, 3, 2), (1, 3, 4), (1, 2, 2, 3), (2, 20), (40,), (1, 7)]
+    # one long-lived constraint object per target, re-used for every shape / dtype that follows (a constraint keeps no state between
+    # calls: whatever an object saw before, each call must hit the target for the tensor it is given)
+    _objs = {}
+
+    def shared(cls, P):
+        if (cls, P) not in _objs:
+            _objs[(cls, P)] = cls(P)
+        return _objs[(cls, P)]
     for fam_i in range(6):
         for shape in shapes:
             for cplx in (False, True):
@@ -73,7 +81,7 @@ def corr(ctx):
                         x = torch.complex(x, torch.tensor(im, dtype=torch.float32).reshape(shape))
                     batched = x.dim() > 1 and x.shape[0] > 1
                     items = [x[i] for i in range(x.shape[0])] if batched else [x]
-                    for cname, C in (("total", TotalPowerConstraint(P)), ("avg", AveragePowerConstraint(P))):
+                    for cname, C in (("total", shared(TotalPowerConstraint, P)), ("avg", shared(AveragePowerConstraint, P))):
                         y = C(x)
                         outs = [y[i] for i in range(y.shape[0])] if batched else [y]
                         for it, out in zip(items, outs):
@@ -99,7 +107,9 @@ def corr(ctx):
                 x = torch.tensor([q(rng.gauss(0, 1) * rng.choice([0.1, 1, 30])) for _ in range(int(math.prod(shape)))], dtype=torch.float32).reshape(shape)
                 if cplx:
                     x = torch.complex(x, torch.tensor([q(rng.gauss(0, 1)) for _ in range(int(math.prod(shape)))], dtype=torch.float32).reshape(shape))
-                y = PerAntennaPowerConstraint(uniform_power=t)(x)
+                if ("ant", t) not in _objs:
+                    _objs[("ant", t)] = PerAntennaPowerConstraint(uniform_power=t)
+                y = _objs[("ant", t)](x)
                 sp = tuple(range(2, x.dim()))
                 cin = (torch.mean(torch.abs(x.to(torch.complex128 if cplx else torch.float64)) ** 2, dim=sp) if sp else torch.abs(x.to(torch.complex128 if cplx else torch.float64)) ** 2)
                 cout = (torch.mean(torch.abs(y.to(torch.complex128 if cplx else torch.float64)) ** 2, dim=sp) if sp else torch.abs(y.to(torch.complex128 if cplx else torch.float64)) ** 2)
